@@ -389,6 +389,8 @@ def run_job(spec, job, tier, seed, res, repo, only_case=None, verbose=False):
         active = list(workers)
         fatal_events = []  # (worker, rc, idx)
         restarts = 0
+        slow_deaths = 0
+        stopped_early = False
         while active:
             time.sleep(0.05)
             for wk in list(active):
@@ -415,6 +417,19 @@ def run_job(spec, job, tier, seed, res, repo, only_case=None, verbose=False):
                     continue
                 restarts += 1
                 wk.cur = max(wk.cur, idx) + 1
+                if rc in (97, 98):
+                    slow_deaths += 1
+                if slow_deaths >= job.get("max_watchdog_deaths", 24):
+                    # every watchdog expiry costs its whole budget (20 s wall for a stall): on a tree where most
+                    # cases hang the job would take hours and the verdict (violation, after reproduction) is
+                    # already decided by the witnesses recorded so far
+                    if not stopped_early:
+                        stopped_early = True
+                        res.count("jobs_stopped_after_watchdog_expiries")
+                        res.inconclusive.append("job %s: stopped after %d watchdog expiries, remaining cases not run" % (job["name"], slow_deaths))
+                        log("job %s: %d watchdog expiries (hang/stall), remaining cases not run" % (job["name"], slow_deaths))
+                    active.remove(wk)
+                    continue
                 if wk.cur >= wk.end or restarts > job.get("max_restarts", 400):
                     if restarts > job.get("max_restarts", 400):
                         res.inconclusive.append("job %s: too many worker restarts" % job["name"])
